@@ -21,23 +21,44 @@ import (
 	"verifharness/vlib"
 )
 
+// Case counts. Indices below the "legacy" count of a tier are the original two classes (stand-alone /
+// Router, drawn exactly as before); the indices above it are the extended classes (see Rule).
+const (
+	legacyQuick, legacyThorough = 2000, 500000
+	extQuick, extThorough       = 1200, 120000
+)
+
 func init() {
 	vlib.Register(&vlib.Prop{
 		ID:    "C13",
 		Level: "exploration",
-		Cases: func(tier string) int { return vlib.TierN(tier, 2000, 500000) },
+		Cases: func(tier string) int { return vlib.TierN(tier, legacyQuick+extQuick, legacyThorough+extThorough) },
 		Rule: "case = one PoisonQueue instance (constructor without filter, or PoisonQueueWithFilter with one of 7 predicates: all, none, errors.Is sentinel, " +
 			"its negation, errors.As type, hash of the text, not context.Canceled) with a random poison topic, 1..6 messages (random payload, 0..4 random metadata keys, " +
 			"40%: some of the four poison keys pre-set) x 1..4 scripted attempts each (success or one of 21 error shapes: plain, pkg/errors, sentinel, fmt/pkg/deep wrapped, " +
 			"typed pointer / typed nil / value / uncomparable, multierror, errors.Join, context errors, empty text; outputs nil/empty/1..3; handler may set a metadata key; " +
-			"poison publisher accepts or fails with a plain/sentinel/typed error). Even case indices run the middleware stand-alone (attempts repeated on the same message " +
+			"poison publisher accepts or fails with a plain/sentinel/typed error). Base classes (first 2000 quick / 500000 thorough indices): even case indices run the " +
+			"middleware stand-alone (attempts repeated on the same message " +
 			"until nil is returned), odd ones inside a running Router (1..2 handlers with or without publisher, middleware at router or handler level, scripted subscriber " +
-			"redelivering after every Nack, messages delivered concurrently or in sequence). Every attempt is one evaluation of the model; a case is non-trivial when at least " +
-			"one attempt failed with an error the filter accepts (the poison publisher was due); distinct = distinct (mode, filter, registration, per-attempt " +
-			"(error shape, outputs, filter verdict, publisher outcome, settlement)) signatures.",
+			"redelivering after every Nack, messages delivered concurrently or in sequence). Extended classes (the remaining indices, round-robin): " +
+			"'standalone+ctx' and 'router+ctx' = the base classes where application code additionally stores foreign values in the message context (per message 0..3 " +
+			"injections x 1..3 key/value pairs; place: by the emitter/caller, in a subscriber decorator added after the Router's own, in a middleware above or below the " +
+			"poison middleware (before calling / after the wrapped function returned), in the handler before it returns; key: plain string spelled like one of the Router's " +
+			"five context keys, another plain string, an application key type with the same spelling, struct key, int key; value: foreign string, the real name of another " +
+			"handler/topic/subscriber, empty string, non-string, nil), message metadata may carry keys spelled like the Router's context keys, Router handlers 1..3 with " +
+			"subscribers named by fmt.Stringer or by their (pointer/value) type, possibly one subscriber or one topic shared by two handlers; " +
+			"'router+shared' = ONE wrapped function guarded := spy(pq(handler)) registered as the handler function of 2..3 handlers of one Router (distinct names; " +
+			"topics/subscribers distinct or partly shared), the first messages spread over all handlers, 35%: 1..2 further messages dispatched directly into the same " +
+			"guarded function without any Router context (expected names: empty), with or without foreign context values. " +
+			"Every attempt is one evaluation of the model; a case is non-trivial when at least " +
+			"one attempt failed with an error the filter accepts (the poison publisher was due); distinct = distinct (mode, filter, registration, topology, per-attempt " +
+			"(error shape, outputs, filter verdict, publisher outcome, settlement), per-message context-injection shape) signatures.",
 		Assumptions: []string{
 			"messages are built with message.NewMessage (non-nil Metadata map)",
-			"stand-alone calls carry no Router context, so the topic/handler/subscriber keys are expected to be set to the empty string (the context keys are unexported and cannot be forged)",
+			"stand-alone calls carry no Router context, so the topic/handler/subscriber keys are expected to be set to the empty string (the context keys are unexported and cannot be forged); " +
+				"values that application code stores under keys of its own - whatever they are spelled like - are not the Router's and are expected to leave the poison metadata untouched",
+			"application code only derives from the context the message carries (context.WithValue on msg.Context()); it never replaces it, so the Router's values stay reachable",
+			"inside a Router the expected names are those the handler was registered with: handler name, subscribe topic, subscriber name = String() of a fmt.Stringer subscriber, else its type name without the pointer marker (godoc of SubscriberNameFromCtx: 'kafka.Subscriber')",
 			"filters are pure functions of the error; the expected verdict is computed from the handler's error at the instant the handler returns",
 			"outputs returned together with an accepted error are not judged (the statement is silent on them)",
 			"a blocked call is decided by the quiescence detector, not by a time-out",
@@ -130,6 +151,7 @@ func (w *world) handler(msg *message.Message) ([]*message.Message, error) {
 	if ap.MutKey != "" {
 		msg.Metadata.Set(ap.MutKey, ap.MutVal) // the handler owns the message while it runs
 	}
+	applyCtx(msg, ms.plan.Ctx, placeHandler, false) // plans are immutable once generated
 
 	w.mu.Lock()
 	a.snap = vlib.Snap(msg)
@@ -223,26 +245,52 @@ func (w *world) poisonPub(name string) *vlib.Pub {
 
 type config struct {
 	Mode        string `json:"mode"`
+	Variant     string `json:"variant,omitempty"` // "" (base classes) | "ctx" | "shared"
 	Filter      string `json:"filter"`
 	PoisonTopic string `json:"poison_topic"`
 	Reg         string `json:"registration,omitempty"`
 	Concurrent  bool   `json:"concurrent,omitempty"`
+	CtxValues   bool   `json:"foreign_ctx_values,omitempty"`
 	Handlers    []hcfg `json:"handlers,omitempty"`
 }
 
 type hcfg struct {
 	Name, Topic, Sub string
 	WithPublisher    bool
+	SubKind          string `json:",omitempty"` // how the Router names the subscriber: stringer | ptr-type | value-type
+	SubOf            int    // index of the handler whose subscriber object this one uses (its own index = its own)
 }
+
+const (
+	regRouter  = "router-level"
+	regHandler = "handler-level"
+	regShared  = "shared-wrapped-func"
+)
 
 func run(e *vlib.Env) vlib.Result {
 	r := e.R
+	legacyN := vlib.TierN(e.Tier, legacyQuick, legacyThorough)
+	ext := e.Idx >= legacyN
 	cfg := config{Mode: "standalone", Filter: filterKinds[r.Intn(len(filterKinds))]}
-	if e.Idx%2 == 1 {
-		cfg.Mode = "router"
+	if !ext {
+		if e.Idx%2 == 1 {
+			cfg.Mode = "router"
+		}
+	} else {
+		switch (e.Idx - legacyN) % 3 {
+		case 0:
+			cfg.Variant, cfg.CtxValues = "ctx", true
+		case 1:
+			cfg.Mode, cfg.Variant = "router", "shared"
+		default:
+			cfg.Mode, cfg.Variant, cfg.CtxValues = "router", "ctx", true
+		}
 	}
 	cfg.PoisonTopic = e.ID() + "-poison-" + r.UTF8(5)
 	res := vlib.Result{Class: cfg.Mode + "/" + cfg.Filter}
+	if ext {
+		res.Class = cfg.Mode + "+" + cfg.Variant + "/" + cfg.Filter
+	}
 
 	sent := errors.New(e.ID() + " sentinel")
 	w := &world{msgs: map[string]*msgState{}, standalone: cfg.Mode == "standalone"}
@@ -264,33 +312,109 @@ func run(e *vlib.Env) vlib.Result {
 	nh := 1
 	if cfg.Mode == "router" {
 		nh = r.Range(1, 2)
-		cfg.Reg = []string{"router-level", "handler-level"}[r.Intn(2)]
+		cfg.Reg = []string{regRouter, regHandler}[r.Intn(2)]
 		cfg.Concurrent = r.Bool()
+		if ext {
+			nh = r.Range(1, 3)
+		}
+		if cfg.Variant == "shared" {
+			nh, cfg.Reg, cfg.CtxValues = r.Range(2, 3), regShared, r.Bool()
+		}
 		for i := 0; i < nh; i++ {
 			cfg.Handlers = append(cfg.Handlers, hcfg{
 				Name:          fmt.Sprintf("%s-h%d-%s", e.ID(), i, r.UTF8(4)),
 				Topic:         fmt.Sprintf("%s-t%d-%s", e.ID(), i, r.UTF8(4)),
 				Sub:           fmt.Sprintf("%s-s%d-%s", e.ID(), i, r.UTF8(3)),
 				WithPublisher: r.Chance(0.6),
+				SubOf:         i,
 			})
 		}
+		if ext {
+			// topology: how the Router names the subscribers; one subscriber or one topic shared by two handlers
+			for i := range cfg.Handlers {
+				hc := &cfg.Handlers[i]
+				hc.SubKind = subKinds[r.Intn(len(subKinds))]
+				if i > 0 {
+					switch r.Intn(5) {
+					case 0: // same subscriber object as handler 0, another topic
+						hc.SubOf, hc.Sub, hc.SubKind = 0, cfg.Handlers[0].Sub, cfg.Handlers[0].SubKind
+					case 1: // same topic as handler 0, another subscriber
+						hc.Topic = cfg.Handlers[0].Topic
+					}
+				}
+			}
+		}
 	}
-	allowOuts := func(h int) bool { return cfg.Mode == "standalone" || cfg.Handlers[h].WithPublisher }
-	for i, n := 0, r.Range(1, 6); i < n; i++ {
-		p := genMsg(r, e.ID(), i, sent, nh, allowOuts)
+	allowOuts := func(h int) bool { return cfg.Mode == "standalone" || h < 0 || cfg.Handlers[h].WithPublisher }
+
+	// names the poison metadata has to carry, per handler; realNames feeds the foreign context values
+	var nm []names
+	realNames := []string{e.ID() + "-some-handler", e.ID() + "-some-topic", "app.Consumer"}
+	if cfg.Mode == "standalone" {
+		nm = []names{{}}
+	} else {
+		for _, h := range cfg.Handlers {
+			_, subName := wrapSub(h.SubKind, &vlib.Sub{Name: h.Sub})
+			nm = append(nm, names{Topic: h.Topic, Handler: h.Name, Subscriber: subName})
+			realNames = append(realNames, h.Topic, h.Name, subName)
+		}
+	}
+
+	nmsg := r.Range(1, 6)
+	if cfg.Variant == "shared" {
+		nmsg = r.Range(nh, 6)
+	}
+	for i := 0; i < nmsg; i++ {
+		force := -2
+		if cfg.Variant == "shared" && i < nh {
+			force = i // every handler that shares the wrapped function gets a message
+		}
+		p := genMsg(r, e.ID(), i, sent, nh, force, allowOuts)
 		ms := &msgState{plan: p}
 		w.msgs[p.UUID] = ms
 		w.order = append(w.order, ms)
 	}
-
-	var nm []names
-	if cfg.Mode == "standalone" {
-		nm = []names{{}}
-		runStandalone(&res, w, pq)
-	} else {
-		for _, h := range cfg.Handlers {
-			nm = append(nm, names{Topic: h.Topic, Handler: h.Name, Subscriber: "vsub:" + h.Sub})
+	if cfg.Variant == "shared" {
+		shuffled := make([]*msgState, 0, len(w.order))
+		for _, i := range r.Perm(len(w.order)) {
+			shuffled = append(shuffled, w.order[i])
 		}
+		w.order = shuffled
+		if r.Chance(0.35) {
+			// the same wrapped function is also fed directly, with messages that never went through the Router
+			for i, n := 0, r.Range(1, 2); i < n; i++ {
+				p := genMsg(r, e.ID(), nmsg+i, sent, nh, -1, allowOuts)
+				ms := &msgState{plan: p}
+				w.msgs[p.UUID] = ms
+				at := r.Intn(len(w.order) + 1)
+				w.order = append(w.order, nil)
+				copy(w.order[at+1:], w.order[at:])
+				w.order[at] = ms
+			}
+		}
+	}
+	if ext {
+		for _, ms := range w.order {
+			p := ms.plan
+			if r.Chance(0.25) {
+				// metadata (not context) keys spelled like the Router's context keys: ordinary metadata
+				for i, n := 0, r.Range(1, 2); i < n; i++ {
+					p.Metadata[routerKeySpellings[r.Intn(len(routerKeySpellings))]] = r.UTF8(6)
+				}
+			}
+			if cfg.CtxValues {
+				places := []string{placeEmit, placeOuterMW, placeInnerMW, placeInnerMW, placeHandler, placeHandler}
+				if cfg.Mode == "router" && p.Handler >= 0 {
+					places = append(places, placeDecorator, placeDecorator)
+				}
+				p.Ctx = genCtxPlan(r, places, realNames)
+			}
+		}
+	}
+
+	if cfg.Mode == "standalone" {
+		runStandalone(&res, w, pq, &cfg)
+	} else {
 		runRouter(&res, w, pq, &cfg)
 	}
 
@@ -302,35 +426,51 @@ func run(e *vlib.Env) vlib.Result {
 	return res
 }
 
+// chain builds the function under test: spy directly outside the poison middleware, the scripted
+// handler innermost; with foreign context values, the application's context middlewares above and below.
+func (w *world) chain(pq message.HandlerMiddleware, cfg *config) message.HandlerFunc {
+	if !cfg.CtxValues {
+		return w.spy(pq(w.handler))
+	}
+	return w.ctxMiddleware(placeOuterMW)(w.spy(pq(w.ctxMiddleware(placeInnerMW)(w.handler))))
+}
+
+// callDirect invokes the chain on one message the way a retrying caller would: the same *Message
+// again until nil is returned or the plan ends. (Stand-alone: one call at a time, w.inflight.)
+func (w *world) callDirect(h message.HandlerFunc, ms *msgState) {
+	msg := ms.plan.build()
+	applyCtx(msg, ms.plan.Ctx, placeEmit, false)
+	for k := 0; k < len(ms.plan.Attempts); k++ {
+		var err error
+		func() {
+			defer func() {
+				if p := recover(); p != nil {
+					w.mu.Lock()
+					w.panics = append(w.panics, fmt.Sprintf("message %s attempt %d: %v", ms.plan.UUID, k, p))
+					w.mu.Unlock()
+					err = fmt.Errorf("panic")
+				}
+			}()
+			_, err = h(msg)
+		}()
+		w.mu.Lock()
+		w.inflight = nil
+		w.mu.Unlock()
+		if err == nil {
+			break
+		}
+	}
+}
+
 // runStandalone drives spy(pq(handler)) directly: every message is retried on the same *Message
 // (as a Retry middleware or a redelivering caller would) until nil is returned or the plan ends.
-func runStandalone(res *vlib.Result, w *world, pq message.HandlerMiddleware) {
-	h := w.spy(pq(w.handler))
+func runStandalone(res *vlib.Result, w *world, pq message.HandlerMiddleware, cfg *config) {
+	h := w.chain(pq, cfg)
 	done := make(chan struct{})
 	go func() {
 		defer close(done)
 		for _, ms := range w.order {
-			msg := ms.plan.build()
-			for k := 0; k < len(ms.plan.Attempts); k++ {
-				var err error
-				func() {
-					defer func() {
-						if p := recover(); p != nil {
-							w.mu.Lock()
-							w.panics = append(w.panics, fmt.Sprintf("message %s attempt %d: %v", ms.plan.UUID, k, p))
-							w.mu.Unlock()
-							err = fmt.Errorf("panic")
-						}
-					}()
-					_, err = h(msg)
-				}()
-				w.mu.Lock()
-				w.inflight = nil
-				w.mu.Unlock()
-				if err == nil {
-					break
-				}
-			}
+			w.callDirect(h, ms)
 		}
 	}()
 	switch oc, dump := vlib.WaitClosed(done, vlib.WD); oc {
@@ -342,6 +482,31 @@ func runStandalone(res *vlib.Result, w *world, pq message.HandlerMiddleware) {
 	}
 }
 
+// deliverWith is Subscription.Deliver with a hook on every emitted copy: copies of orig (context =
+// subscription context, then whatever the emitter stores in it) are emitted until one is acked,
+// redelivering after each Nack like a broker, at most maxRedeliver extra times.
+func deliverWith(sp *vlib.Subscription, orig *message.Message, maxRedeliver int, prep func(*message.Message)) (copies []*message.Message, acked bool) {
+	for n := 0; ; n++ {
+		c := orig.Copy()
+		c.SetContext(sp.Ctx)
+		prep(c)
+		if !sp.Send(c) {
+			return copies, false
+		}
+		copies = append(copies, c)
+		select {
+		case <-c.Acked():
+			return copies, true
+		case <-c.Nacked():
+			if n >= maxRedeliver {
+				return copies, false
+			}
+		case <-sp.Ended():
+			return copies, false
+		}
+	}
+}
+
 // runRouter runs the middleware inside a real Router behind scripted subscribers.
 func runRouter(res *vlib.Result, w *world, pq message.HandlerMiddleware, cfg *config) {
 	router, err := message.NewRouter(message.RouterConfig{}, watermill.NopLogger{})
@@ -349,25 +514,46 @@ func runRouter(res *vlib.Result, w *world, pq message.HandlerMiddleware, cfg *co
 		res.Inconclusive("NewRouter: %v", err)
 		return
 	}
-	if cfg.Reg == "router-level" {
-		router.AddMiddleware(w.spy, pq) // first added = outermost
+	mws := []message.HandlerMiddleware{w.spy, pq} // first added = outermost
+	if cfg.CtxValues {
+		mws = []message.HandlerMiddleware{w.ctxMiddleware(placeOuterMW), w.spy, pq, w.ctxMiddleware(placeInnerMW)}
+		// runs after the Router's own decorator that stores the handler's names in the context
+		router.AddSubscriberDecorators(w.ctxDecorator())
+	}
+	if cfg.Reg == regRouter {
+		router.AddMiddleware(mws...)
+	}
+	// regShared: ONE wrapped function for all handlers (a HandlerMiddleware is a plain func(HandlerFunc) HandlerFunc)
+	var guarded message.HandlerFunc
+	if cfg.Reg == regShared {
+		guarded = w.chain(pq, cfg)
 	}
 	subs := make([]*vlib.Sub, len(cfg.Handlers))
+	msubs := make([]message.Subscriber, len(cfg.Handlers))
 	outPubs := make([]*vlib.Pub, len(cfg.Handlers))
 	for i, hc := range cfg.Handlers {
-		subs[i] = &vlib.Sub{Name: hc.Sub}
+		if hc.SubOf != i {
+			subs[i], msubs[i] = subs[hc.SubOf], msubs[hc.SubOf]
+		} else {
+			subs[i] = &vlib.Sub{Name: hc.Sub}
+			msubs[i], _ = wrapSub(hc.SubKind, subs[i])
+		}
+		hf := message.HandlerFunc(w.handler)
+		if guarded != nil {
+			hf = guarded
+		}
 		var h *message.Handler
 		if hc.WithPublisher {
 			outPubs[i] = &vlib.Pub{Name: hc.Name + "-out"}
-			h = router.AddHandler(hc.Name, hc.Topic, subs[i], hc.Topic+"-out", outPubs[i], w.handler)
+			h = router.AddHandler(hc.Name, hc.Topic, msubs[i], hc.Topic+"-out", outPubs[i], hf)
 		} else {
-			h = router.AddNoPublisherHandler(hc.Name, hc.Topic, subs[i], func(msg *message.Message) error {
-				_, err := w.handler(msg)
+			h = router.AddNoPublisherHandler(hc.Name, hc.Topic, msubs[i], func(msg *message.Message) error {
+				_, err := hf(msg)
 				return err
 			})
 		}
-		if cfg.Reg == "handler-level" {
-			h.AddMiddleware(w.spy, pq)
+		if cfg.Reg == regHandler {
+			h.AddMiddleware(mws...)
 		}
 	}
 	ctx, cancel := context.WithCancel(context.Background())
@@ -406,7 +592,19 @@ func runRouter(res *vlib.Result, w *world, pq message.HandlerMiddleware, cfg *co
 	}
 
 	deliver := func(ms *msgState) {
-		copies, acked := sps[ms.plan.Handler].Deliver(ms.plan.build(), len(ms.plan.Attempts)-1)
+		if ms.plan.Handler < 0 {
+			w.callDirect(guarded, ms) // no Router, no settlement
+			return
+		}
+		var copies []*message.Message
+		var acked bool
+		if cfg.Variant == "" {
+			copies, acked = sps[ms.plan.Handler].Deliver(ms.plan.build(), len(ms.plan.Attempts)-1)
+		} else {
+			copies, acked = deliverWith(sps[ms.plan.Handler], ms.plan.build(), len(ms.plan.Attempts)-1, func(c *message.Message) {
+				applyCtx(c, ms.plan.Ctx, placeEmit, false)
+			})
+		}
 		w.mu.Lock()
 		ms.copies, ms.acked = copies, acked
 		w.mu.Unlock()
